@@ -19,7 +19,6 @@ LastOp == IF hist = <<>> THEN [op |-> "init"] ELSE hist[Len(hist)]
 (* search itself runs over the distinct object states.  The depth in the view keeps the set of         *)
 (* explored states exact for any number of workers.                                                    *)
 View == IF fin THEN <<v, prev, LastOp, TRUE>> ELSE <<v, Len(hist), FALSE>>
-Deviated == "deviation" \in tags             \* the last step was a known deviation: the object is broken, stop there
 
 Srcs == UNION {[1..n -> Vals] : n \in 0..MaxSrc}
 Pos == 0..MaxLen
@@ -49,29 +48,27 @@ TagsOf(V, op, V2) ==
         THEN {"insertInPlace"} ELSE {})
   \cup (IF op.op \in {"erase", "eraseRange"} /\ V2.size < V.size /\ V2.size > 0 THEN {"eraseShift"} ELSE {})
   \cup (IF op.op = "assign" /\ V.alloc >= Len(op.src) /\ V.alloc > 0 THEN {"assignInPlace"} ELSE {})
-  \cup (IF KnownDeviation(V, op) THEN {"deviation"} ELSE {})
+  \cup (IF RepairedPath(V, op) THEN {"repaired"} ELSE {})        \* runs through code repaired by a fix: commit
   \cup (IF V2.uaf THEN {"uaf"} ELSE {})
 
-(* g = TRUE: the known deviations are kept out (design check); FALSE: generated too (for the real code) *)
-Do(op, g) ==
+Do(op) ==
   /\ VecApply(Elems(v), op).ok
   /\ (op.op = "resize" => op.n <= MaxLen) /\ (op.op \in {"resize", "resizeV", "resizeSelf"} => op.n # v.size)
   /\ (op.op = "reserve" => op.n > v.alloc)
-  /\ (g => ~KnownDeviation(v, op))
   /\ LET r == ImplApply(v, op) IN
        /\ v' = r.v /\ res' = r.res /\ other' = r.other /\ tags' = TagsOf(v, op, r.v)
   /\ prev' = v
   /\ hist' = Append(hist, op)
 
-NextG(g) == /\ ~fin /\ Len(hist) < MaxHist
-            /\ \E op \in Ops : /\ Do(op, g)
-                                /\ \/ fin' = TRUE
-                                   \/ fin' = FALSE /\ Len(hist) + 1 < MaxHist /\ "deviation" \notin tags' /\ v'.size <= MaxLen
-Spec == Init /\ [][NextG(TRUE)]_vars
-GenSpec == Init /\ [][NextG(FALSE)]_vars
+Next == /\ ~fin /\ Len(hist) < MaxHist
+        /\ \E op \in Ops : /\ Do(op)
+                            /\ \/ fin' = TRUE
+                               \/ fin' = FALSE /\ Len(hist) + 1 < MaxHist /\ v'.size <= MaxLen
+Spec == Init /\ [][Next]_vars
+GenSpec == Spec                                 \* (no known deviation is left to be generated separately)
 
-(* random long histories (tlc -simulate): only advancing steps, known deviations kept out *)
-SimNext == ~fin /\ Len(hist) < MaxHist /\ \E op \in Ops : Do(op, TRUE) /\ fin' = FALSE /\ v'.size <= MaxLen
+(* random long histories (tlc -simulate): only advancing steps *)
+SimNext == ~fin /\ Len(hist) < MaxHist /\ \E op \in Ops : Do(op) /\ fin' = FALSE /\ v'.size <= MaxLen
 SimSpec == Init /\ [][SimNext]_vars
 
 (* ---- properties ---------------------------------------------------------------------------- *)
@@ -84,11 +81,7 @@ StepRefines ==
      /\ VecOtherOK(Elems(prev'), op, other')
      /\ (op.op = "reserve" => v'.alloc >= op.n)
      /\ ~v'.uaf
-Refinement == [][~KnownDeviation(prev', hist'[Len(hist')]) => StepRefines]_vars
+Refinement == [][StepRefines]_vars              \* no exclusions: every transition of the transcribed algorithm
 
-WellFormedInv == ~Deviated => WellFormed(v)
-
-(* the known deviations are real: under GenSpec every step taken where the predicate holds breaks   *)
-(* the contract (a repaired algorithm makes this fail; predicate and known finding go together)      *)
-DeviationsAreReal == [][KnownDeviation(prev', hist'[Len(hist')]) => ~StepRefines]_vars
+WellFormedInv == WellFormed(v)
 =============================================================================
